@@ -98,6 +98,7 @@ class Summaries:
     def T(self, body):
         if body.path not in self.terms:
             self.terms[body.path] = flow.Terms(self.p, body)
+            self.terms[body.path].indexed = getattr(self, "indexed", False)
         return self.terms[body.path]
 
     def local_outcomes(self, body):
@@ -121,6 +122,7 @@ class Summaries:
             for dec in paths:
                 rd = flow.ReachingDefs(body, removed_edges=flow.contradicting_edges(body, dec))
                 T = flow.Terms(self.p, body, rd)
+                T.indexed = getattr(self, "indexed", False)
                 conds = []
                 for sb, succ in dec:
                     t = body.term(sb)
